@@ -733,6 +733,11 @@ class StmtMixin:
             if isinstance(it, VRef) and isinstance(st.heap[it.rid], HRec):
                 fields.add((it.rid, 'pos'))
         text = ast.unparse(f)
+        if isinstance(f, ast.Attribute):
+            for (srt, mname), h in self.objmethods.items():
+                if mname == f.attr:
+                    for m in getattr(h, 'modifies', ()):
+                        self.mod_entry(m, n, None, st, mods)
         rule = self.find_rule(text)
         callee = None
         if isinstance(rule, dict) and rule.get('kind') == 'contract':
